@@ -353,12 +353,14 @@ func (gen *generator) irAttrGroupDef(new *ir.AttrGroupDef, oldDefs []*ast.AttrGr
 	present := make(map[string]bool)
 	for _, oldDef := range oldDefs {
 		for _, oldFuncAttr := range oldDef.FuncAttrs() {
-			lit := oldFuncAttr.LlvmNode().Text()
+			funcAttr := gen.irFuncAttribute(oldFuncAttr)
+			// Compare the attributes, not their spelling in the source (`"a"="b"`
+			// and `"a" = "b"` are the same attribute).
+			lit := funcAttr.String()
 			if present[lit] {
 				// skip duplicate attribute.
 				continue
 			}
-			funcAttr := gen.irFuncAttribute(oldFuncAttr)
 			new.FuncAttrs = append(new.FuncAttrs, funcAttr)
 			present[lit] = true
 		}
